@@ -2,6 +2,7 @@ package wasp
 
 import (
 	"context"
+	"io"
 	"sync"
 	"time"
 
@@ -140,7 +141,7 @@ func (s *setupWorker) setup(ctx context.Context, m transport.Metadata) error {
 	c.SetReadDeadline(
 		time.Now().Add(connectTimeout),
 	)
-	firstPkt, err := s.decoder.Decode(c)
+	firstPkt, err := decodePacket(s.decoder, c)
 	if err != nil {
 		return err
 	}
@@ -264,10 +265,45 @@ type timeoutError interface {
 	Timeout() bool
 }
 
+// decodePacket reads one packet from the client. The wire decoder indexes into client-supplied
+// buffers without checking their length; whatever a client sends must cost it its own
+// connection at most, so a panic in there is turned into a protocol violation.
+func decodePacket(d *decoder.Sync, r io.Reader) (pkt packet.Packet, err error) {
+	defer func() {
+		if recovered := recover(); recovered != nil {
+			pkt, err = nil, ErrProtocolViolation
+		}
+	}()
+	// the decoder also drops the error of a short read of the packet body and would hand over
+	// a zero-filled packet of the announced length: keep track of read errors ourselves
+	tracked := &errorTrackingReader{r: r}
+	pkt, err = d.Decode(tracked)
+	if err == nil && tracked.err != nil {
+		pkt, err = nil, tracked.err
+	}
+	if err == nil && pkt == nil {
+		err = ErrProtocolViolation
+	}
+	return pkt, err
+}
+
+type errorTrackingReader struct {
+	r   io.Reader
+	err error
+}
+
+func (e *errorTrackingReader) Read(p []byte) (int, error) {
+	n, err := e.r.Read(p)
+	if err != nil {
+		e.err = err
+	}
+	return n, err
+}
+
 func (s *connectionWorker) processSession(ctx context.Context, session *sessions.Session) bool {
 	c := session.ReadWriter()
 	started := time.Now()
-	pkt, err := s.decoder.Decode(c)
+	pkt, err := decodePacket(s.decoder, c)
 	if err != nil {
 		return false
 	}
